@@ -20,8 +20,8 @@ package fzf
 
 //@ func CountItems
 //@ property C04 C06
-//@ requires validChunks(cs)
-//@ ensures result == sumc(cs, len(cs))
+//@ requires forall(k, 0, len(cs), cs[k] != nil)
+//@ ensures validChunks(cs) ==> result == sumc(cs, len(cs))
 //@ use sumc_mid(cs, len(cs) - 1)
 
 // nthItem(cs, k, p): address of the p-th item counted from chunk k on, in chunk-concatenation order
@@ -961,17 +961,18 @@ package fzf
 //  - the exit status is 0 exactly when at least one item was printed, 1 otherwise - printing the query does not
 //    count (C07-m5).
 // Assumed, not proved (goroutine code): Matcher.scan returns a merger (no reset request is pending in filter mode) that
-// sorts only if m.sort && pattern.sortable, and touches only the matcher; Snapshot and the event box touch only themselves.
+// sorts only if m.sort && pattern.sortable, and touches only the matcher; the event box waits touch only the box.
 //@ func Run region @"if opts.PrintQuery {"
 //@ property C07 C04
 //@ requires opts != nil && opts.Filter != nil && opts.Printer != nil && matcher != nil && patternBuilder != nil && eventBox != nil && chunkList != nil
+//@ requires chunkList.cache != nil && validChunks(chunkList.chunks) && opts.Tail >= 0
 //@ ghost nout int
 //@ ghost @"opts.Printer(merger.Get(i).item.AsString(opts.Ansi))" nout = nout + 1
 //@ cut @"slab := util.MakeSlab(slab16Size, slab32Size)" streaming branch: see the closure contract @"if chunkList.trans(&item, runes)"
 //@ effect call Printer requires true
 //@ effect call patternBuilder requires true assumes result != nil
 //@ assert @"for i := 0; i < merger.Length(); i++" merger.sorted ==> sort && pattern.sortable
-//@ modifies *matcher, *eventBox, *chunkList
+//@ modifies *matcher, *eventBox, *chunkList, *chunkList.cache
 //@ ensures r0 == (nout > 0 ? ExitOk : ExitNoMatch) && r1 == nil
 //@ loop 2
 //@   invariant 0 <= i && 0 <= nout && merger != nil && found == (nout > 0) && (i > 0 ==> nout > 0)
@@ -992,8 +993,27 @@ package fzf
 //@ modifies *m
 //@ ensures r0 != nil && fresh(r0) && mergerValid(r0) && (r0.sorted ==> old(m.sort) && request.pattern.sortable)
 //@ ensures (fresh(r0.merged) || cap(r0.merged) == 0) && (fresh(r0.cursors) || len(r0.cursors) == 0)
-//@ func ChunkList.Snapshot trusted
-//@ modifies *cl
+//@ func ChunkCache.retire trusted
+//@ modifies *cc
+// Snapshot: never a panic for any chunk layout and any --tail; chunks that are already part of the list (and so of
+// earlier snapshots) are never written - a chunk that has to be trimmed, or that may still grow, is replaced by a
+// copy - and `changed` says whether the list was cut back to the tail.  (That the kept items are exactly the last
+// `tail` ones is not proved.)
+//@ func ChunkList.Snapshot
+//@ property C06
+//@ requires cl != nil && cl.cache != nil && validChunks(cl.chunks) && tail >= 0
+//@ modifies *cl, *cl.cache
+//@ ensures r2 == (tail > 0 && old(sumc(cl.chunks, len(cl.chunks))) > tail)
+//@ ensures fresh(r0) && len(r0) == len(cl.chunks) && forall(k, 0, len(r0), r0[k] != nil)
+//@ loop 1
+//@   writes nothing
+//@   invariant -1 <= i && i <= len(cl.chunks) - 1 && numChunks == len(cl.chunks) - 1 - i
+//@ loop 2
+//@   writes ret[*], *cl.cache
+//@   invariant -1 <= i && i <= len(ret) - 1 && fresh(ret) && forall(k, 0, len(ret), ret[k] != nil && 0 <= ret[k].count && ret[k].count <= 100)
+//@ loop 3
+//@   writes newChunk.items[*]
+//@   invariant 0 <= i && chunk != nil && oldCount == chunk.count && left < oldCount && oldCount <= 100
 
 // ansiLabelPrinter: a printer is returned only together with a positive display width - the fill printer repeats the
 // label until the line is full and advances by that width, so a zero width would never finish (C14-m8).
